@@ -318,6 +318,7 @@ def run(repo, rep):
     from ..symval import INPLACE_EVENTS
     del INPLACE_EVENTS[:]
     _run(repo, rep)
+    common.partial_call_rule(repo, rep, [('geodepy.statistics', 'vcv_local2cart'), ('geodepy.statistics', 'vcv_cart2local'), ('geodepy.statistics', 'error_ellipse'), ('geodepy.statistics', 'relative_error')], 'the covariance matrices')
     # in-place array updates met while evaluating the functions above (element type follows the caller's numbers)
     common.dtype_rule(repo, rep, [('geodepy.statistics', 'vcv_local2cart'), ('geodepy.statistics', 'vcv_cart2local'), ('geodepy.statistics', 'rotation_matrix'), ('geodepy.statistics', 'error_ellipse'), ('geodepy.statistics', 'relative_error')])
 
